@@ -73,7 +73,7 @@ def lines(draw, style, n, start_k):
     out = []
     k = start_k
     for _ in range(n):
-        kind = draw(st.sampled_from(["code", "code", "indent", "blank", "blank2", "own", "foreign", "ff", "u2028", "trail", "tab", "stray-cr", "lookalike"]))
+        kind = draw(st.sampled_from(["code", "code", "indent", "blank", "blank2", "own", "foreign", "ff", "u2028", "trail", "tab", "stray-cr", "lookalike", "not-nfc"]))
         k += 1
         if kind == "code":
             out.append(f"int x{k} = {k}; /* ~{k}~ */" if style not in ("c", "cpp") else f"int x{k} = {k}; ~{k}~")
@@ -91,6 +91,9 @@ def lines(draw, style, n, start_k):
             out.append(f"int y{k};\x0c ~{k}~")
         elif kind == "u2028":
             out.append(f"let s{k} = ' '; ~{k}~")
+        elif kind == "not-nfc":
+            # text that is not in Unicode normal form C (a decomposed accent, OHM SIGN, ANGSTROM SIGN): kept byte for byte
+            out.append(f"name{k} = 'cafe\u0301 \u2126 \u212b' ~{k}~")
         elif kind == "lookalike":
             # code that merely starts with the letters of a word-like comment marker
             single = S.STYLES[style][0]
